@@ -241,6 +241,21 @@ def idem_worker(cfg):
                 errs.append((f"idem:{tag}:running-again-changes-results-or-evaluates", f"iteration {it0}->{fs.ns.iteration}, evaluations {ev0}->{model.likelihood_evaluations}, logZ {z0!r}->{float(fs.logZ)!r} config={cfg}"))
         except Exception as e:
             errs.append((f"idem:{tag}:running-again-raises-{type(e).__name__}", f"{e} config={cfg}"))
+        # another, unrelated sampler of the same kind built and run in this process must leave the
+        # finished one alone (no state shared between two sampler objects)
+        try:
+            read0 = (float(fs.logZ), float(fs.logZ_error) if hasattr(fs, "logZ_error") else None, np.asarray(fs.nested_samples).tobytes(), np.asarray(fs.ns.log_posterior_weights, dtype=float).tobytes() if hasattr(fs.ns, "log_posterior_weights") else None, repr(fs.ns.posterior_effective_sample_size) if hasattr(fs.ns, "posterior_effective_sample_size") else None)
+            other = dict(cfg, seed=cfg.get("seed", 0) + 17, model="G3" if cfg.get("model", "G2") == "G2" else "G2", resume="none")
+            other.pop("kill_at", None)
+            r_other = runner(other, want=())
+            n += 1
+            read1 = (float(fs.logZ), float(fs.logZ_error) if hasattr(fs, "logZ_error") else None, np.asarray(fs.nested_samples).tobytes(), np.asarray(fs.ns.log_posterior_weights, dtype=float).tobytes() if hasattr(fs.ns, "log_posterior_weights") else None, repr(fs.ns.posterior_effective_sample_size) if hasattr(fs.ns, "posterior_effective_sample_size") else None)
+            if read0 != read1:
+                which = [nm for nm, a_, b_ in zip(("logZ", "logZ_error", "nested samples", "posterior weights", "ESS"), read0, read1) if a_ != b_]
+                errs.append((f"idem:{tag}:a-finished-sampler-changes-when-another-sampler-runs-in-the-same-process", f"{which} changed (logZ {read0[0]!r} -> {read1[0]!r}) config={cfg}"))
+            runs.reset_globals()
+        except Exception as e:
+            errs.append((f"idem:{tag}:second-sampler-in-the-same-process-raises-{type(e).__name__}", f"{e} config={cfg}"))
         # a later call asking for another posterior sampling method must honour it: multinomial
         # resampling returns int(ESS) draws (rows of the nested samples), whatever was drawn before
         if not capped:
